@@ -113,11 +113,13 @@ pub fn parse_swift_digits(input: &str, field_name: &str) -> Result<String, Parse
 pub fn parse_swift_chars(input: &str, field_name: &str) -> Result<String, ParseError> {
     // SWIFT x character set: alphanumeric + special characters
     // Common special chars: / - ? : ( ) . , ' + { } SPACE CR LF % & * ; < = > @ [ ] _ $ ! " # |
-    const SWIFT_SPECIAL: &str = "/-?:().,'+{} \r\n%&*;<=>@[]_$!\"#|";
+    // Letters and digits are the ASCII ones; CR/LF separate lines and are not characters of a
+    // line (callers validate line by line)
+    const SWIFT_SPECIAL: &str = "/-?:().,'+{} %&*;<=>@[]_$!\"#|";
 
     if !input
         .chars()
-        .all(|c| c.is_alphanumeric() || SWIFT_SPECIAL.contains(c))
+        .all(|c| c.is_ascii_alphanumeric() || SWIFT_SPECIAL.contains(c))
     {
         return Err(ParseError::InvalidFormat {
             message: format!(
@@ -134,6 +136,16 @@ pub fn parse_bic(input: &str) -> Result<String, ParseError> {
     if input.len() != 8 && input.len() != 11 {
         return Err(ParseError::InvalidFormat {
             message: format!("BIC must be 8 or 11 characters, found {}", input.len()),
+        });
+    }
+
+    // A BIC is 4!a2!a2!c[3!c]: upper-case ASCII letters and digits only
+    if !input
+        .chars()
+        .all(|c| c.is_ascii_uppercase() || c.is_ascii_digit())
+    {
+        return Err(ParseError::InvalidFormat {
+            message: "BIC must consist of upper-case letters and digits".to_string(),
         });
     }
 
